@@ -26,18 +26,26 @@ if [ "$RC_Q" = "0" ]; then
   VERIF_SKIP_COQCHK=1 VERIF_REPO="$W/mut" VERIF_OUT="$W/out" "$V/check" "$PROP" --tier thorough > "$W/out/check-thorough.log" 2>&1; RC_T=$?
   tail -2 "$W/out/check-thorough.log" | cut -c1-300
 fi
-WHY=$(python3 - "$W/out" <<'PY'
-import json,glob,sys
-fs=sorted(glob.glob(sys.argv[1]+"/replays/*.json"))
-print((json.load(open(fs[0])).get("why","") if fs else "")[:300].replace('"',"'").replace("\n"," "))
+python3 - "$W/out" "$D/meta.json" "$PROP" "$NAME" "$RC_CLEAN" "$RC_MUT" "$RC_Q" "$RC_T" "$(git -C /repo rev-parse --short HEAD)" <<'PY'
+import json, glob, sys
+out, dest, prop, name, rc_clean, rc_mut, rc_q, rc_t, head = sys.argv[1:10]
+fs = sorted(glob.glob(out + "/replays/*.json"))
+why = (json.load(open(fs[0])).get("why", "") if fs else "")[:400]
+import os
+history = []
+if os.path.exists(dest):
+    try:
+        old = json.load(open(dest))
+        history = old.get("history", []) + [{"check_quick_rc": old.get("check_quick_rc"), "check_thorough_rc": old.get("check_thorough_rc"),
+                                            "note": old.get("note", "")}]
+    except Exception:
+        pass
+json.dump({"history": history,
+           "property": prop, "name": name, "demo_rc_unchanged": int(rc_clean), "demo_rc_changed": int(rc_mut),
+           "check_quick_rc": int(rc_q), "check_thorough_rc": rc_t, "first_violation": why,
+           "ran": f"tools/seed_eval.sh {prop} <agent output dir> {name}: patch applied to a scratch copy of /repo/src at {head}; "
+                  f"demo.py run on both copies; ./check {prop} against the patched copy (VERIF_REPO), thorough only if quick missed it"},
+          open(dest, "w"), indent=1)
 PY
-)
-cat > "$D/meta.json" <<META
-{"property": "$PROP", "name": "$NAME",
- "demo_rc_unchanged": $RC_CLEAN, "demo_rc_changed": $RC_MUT,
- "check_quick_rc": $RC_Q, "check_thorough_rc": "$RC_T",
- "first_violation": "$WHY",
- "ran": "tools/seed_eval.sh $PROP <agent output dir> $NAME: patch applied to a scratch copy of /repo/src at $(git -C /repo rev-parse --short HEAD); demo.py run on both copies; ./check $PROP against the patched copy (VERIF_REPO)"}
-META
 rm -rf "$W"
 echo "stored in $D"
